@@ -220,6 +220,12 @@ RealOrderMenu ==
   \cup {Agg(<<[a |-> "percentile", e |-> Pick(p[1], p[2]), pn |-> 1, pd |-> 2, as |-> "p50", wrap |-> NoE]>>, <<>>, NoE, NoH, FALSE, NoLimit, "none") : p \in RealPairs}
 LinesPick == {KV(A, IntV(1)), KV(A, IntV(2)), KV(B, IntV(1)), KV(B, IntV(2))}
 
+\* C05: join on a numeric column of different types on the two sides (INT = REAL), incl. values around 2^53
+NumJoinMenu == {Star(NoE, FALSE, NoLimit, "inner"), Star(NoE, FALSE, NoLimit, "outer"),
+                Agg(<<ItE("key", V, "v"), CountStar>>, <<V>>, NoE, NoH, FALSE, NoLimit, "inner")}
+LinesNum == {KV(A, IntV(1)), KV(B, I53(2)), KV(A, I53(0)), KV(A, I53(1)), KV(B, IntV(2)), KV(A, Null)}
+JoinSetsNum == {<<KV(A, IntV(1)), KV(B, I53(2)), KV(A, IntV(2))>>, <<KV(A, I53(0)), KV(A, I53(2)), KV(A, I53(2)), KV(B, Null)>>}
+
 \* ---- input menus ----------------------------------------------------------
 Lines4 == {KV(A, IntV(1)), KV(A, IntV(2)), KV(B, IntV(1)), KV(Null, IntV(1)), KV(A, Null), KV(Null, Null), Garbage}
 LinesAgg == {KV(A, IntV(1)), KV(A, IntV(2)), KV(B, IntV(-1)), KV(B, Null), KV(Null, IntV(0)), KV(A, Null), Near}
@@ -228,7 +234,7 @@ LinesAgg == {KV(A, IntV(1)), KV(A, IntV(2)), KV(B, IntV(-1)), KV(B, Null), KV(Nu
 AB == TextV(<<97, 98>>)
 BA == TextV(<<98, 97>>)
 AA == TextV(<<97, 97>>)
-LinesRich == {KV(A, I31(0)), KV(A, I31(5)), KV(A, IntV(1)), KV(A, IntV(10)), KV(AB, IntV(9)), KV(B, IntV(100)), KV(BA, IntV(-1)), KV(AA, IntV(2)), KV(B, IntV(9)), KV(AB, Null), KV(Null, IntV(10)),
+LinesRich == {KV(A, IntV(1600000000)), KV(A, IntV(1600000007)), KV(A, I31(5)), KV(A, IntV(1)), KV(A, IntV(10)), KV(AB, IntV(9)), KV(B, IntV(100)), KV(BA, IntV(-1)), KV(AA, IntV(2)), KV(B, IntV(9)), KV(AB, Null), KV(Null, IntV(10)),
               KV(Null, IntV(0)), KV(A, MaxV(0)), KV(B, MinV(0)), KV(Null, Null), Garbage}
 LinesNoise == {KV(A, IntV(1)), KV(B, IntV(2)), KV(A, Null), KV(Null, IntV(3)), KV(Null, Null), Garbage, Empty, Near}
 LongJoin == [i \in 1..34 |-> IF i % 2 = 0 THEN KV(A, IntV(i)) ELSE KV(B, IntV(i))]
